@@ -165,6 +165,10 @@ def run(ctx):
     storms = []
     for k in range(16 if ctx.tier == "thorough" else 5):
         storms.append({"max": ctx.rng.range(1, 3), "peers": ctx.rng.range(3, 7), "workers": ctx.rng.range(3, 9), "millis": 1500 if ctx.tier == "thorough" else 500})
+    # the idle clean-up tick runs on its own goroutine in the application: storms in which the clock keeps jumping past the TTL while
+    # clean-up ticks run next to the other handlers
+    for k in range(8 if ctx.tier == "thorough" else 3):
+        storms.append({"max": ctx.rng.range(1, 3), "peers": ctx.rng.range(3, 7), "workers": ctx.rng.range(3, 7), "cleaners": ctx.rng.range(1, 3), "millis": 1500 if ctx.tier == "thorough" else 500})
     spath = _os.path.join(ctx.workdir, "admstorm.cases")
     open(spath, "w").write("\n".join("admstorm " + json.dumps(sp).encode().hex() for sp in storms) + "\n")
     rcs = ctx.run_harness(exe, spath, _os.path.join(ctx.workdir, "admstorm.out"), timeout=300)
@@ -196,7 +200,7 @@ def run(ctx):
         "samples": [cases[100], cases[len(cases) // 2], cases[-1]],
         "disagreements_model_vs_impl": len(diffs),
     })
-    ctx.assumptions += ["each handler is atomic (it runs under SnapshotSender.mu); the differential waits for runTransfer's return hook before the next event; concurrent calls are sampled by free-running storms (3-8 goroutines), which can show a violation of the cap, not exclude one",
+    ctx.assumptions += ["each handler is atomic (it runs under SnapshotSender.mu); the differential waits for runTransfer's return hook before the next event; concurrent calls are sampled by free-running storms (3-8 goroutines, some with 1-2 goroutines running the idle clean-up tick against a clock that keeps jumping past the TTL), which can show a violation of the cap, not exclude one",
                         "TransferStart/TransferQueued messages are not compared (no WebSocket sink in this harness)"]
     return ctx.finish(LEVEL)
 
